@@ -120,4 +120,15 @@ theorem uniqueLoop_total (mk : Nat → String) (hinj : ∀ a b, mk a = mk b → 
     (seen : List String) (c : Nat) : ∃ r, uniqueLoop mk seen (seen.length + 1) c = some r :=
   uniqueLoop_total' mk hinj _ seen c (by omega)
 
+/-- the name returned by the unbounded loop: not seen, made from a counter value `≥ c`, and the
+counter moves past it -/
+theorem uniqueFrom_spec (mk : Nat → String) (hinj : ∀ a b, mk a = mk b → a = b)
+    (seen : List String) (c : Nat) :
+    ∃ k, c ≤ k ∧ (uniqueFrom mk seen c) = (mk k, k + 1) ∧ mk k ∉ seen
+      ∧ ∀ j, c ≤ j → j < k → mk j ∈ seen := by
+  obtain ⟨⟨n, c'⟩, hr⟩ := uniqueLoop_total mk hinj seen c
+  obtain ⟨k, h1, _, h3, h4, h5, h6⟩ := uniqueLoop_spec mk seen _ c n c' hr
+  refine ⟨k, h1, ?_, h3 ▸ h5, h6⟩
+  simp [uniqueFrom, hr, h3, h4]
+
 end IrVerif.Names
